@@ -3,7 +3,7 @@
    decided by the correspondence and the oracle). *)
 From Coq Require Import List NArith Bool Arith.
 Import ListNotations.
-From Adeu Require Import Str Doc Project Inst Engine EngineProofs.
+From Adeu Require Import Str Doc Project Inst Engine BlockProofs EngineProofs.
 
 (* every run created for inserted text carries ALL formatting tokens of its style source other than the bold / italic
    toggles, in the same order (font, size, colour, character style are inherited, never replaced by defaults) *)
@@ -37,3 +37,11 @@ Theorem C16_new_paragraph : forall e text anc sup st cur,
   p_ppr p = match st with Some _ => 0%N | None => ppr_no_sect (p_ppr cur) end.
 Proof. exact new_para_shape. Qed.
 Print Assumptions C16_new_paragraph.
+
+(* where the created paragraphs go: the paragraphs made for lines 0 .. n-1 stand, in that order, directly after the paragraph
+   addressed, in ITS block list (its story, its table cell) - whatever else that list holds before and after it *)
+Theorem C16_new_paragraphs_follow_their_anchor : forall pid q ps pre post, p_id q = pid ->
+  Forall (fun b => match b with BPara p => p_id p <> pid | _ => True end) pre ->
+  place_here pid (combine (seq 0 (length ps)) ps) (pre ++ BPara q :: post) = pre ++ BPara q :: map BPara ps ++ post.
+Proof. exact place_here_after. Qed.
+Print Assumptions C16_new_paragraphs_follow_their_anchor.
